@@ -104,6 +104,10 @@ def run(prop, tier, seed, replay):
             reqs.append(f"{ci} histjk {N} {B} " + " ".join(fr(x) for x in counts.ravel()))
         cases.append(case)
 
+    # stratum: no hidden state — measurements that come and go, containers changed between two samplings
+    import strata_state
+    strata_state.run_stratum(ck, rng, 12 if tier == "quick" else 60)
+
     gen = ck.driver("GenResample", reqs)
     spec = ck.driver("SpecDriver", reqs)
     if spec is None:
